@@ -1,3 +1,4 @@
+import Heathcliff.Proofs.C01O
 import Heathcliff.Proofs.C01J
 
 /- Property theorems only (statements verbatim; proofs are the helper lemmas of Heathcliff/Proofs). -/
@@ -72,5 +73,27 @@ theorem bgv_round_trip_cf_bounded {q t m cf : Nat} {v : Int} (ht : 2 ≤ t) (ht1
 
 /-- non-vacuity of the BFV round trip: q = 2^40, t = 17, m = 16 (upper half), v = -3 -/
 example : 2 * 17 * ((-3 : Int).natAbs + 1) < 2^40 := by decide
+
+
+/-- MODEL LINK (decryption phase, NTT form, size 2): for a well-formed level, canonical operands and a full-length secret key the
+    model of `dot_product_ct_sk_array` returns, in every RNS component, the NTT of c0 + c1·s mod (X^N+1, q_i) — the polynomial
+    `Spec.phase` evaluates with big integers.  (`Level.WF`, `RnsCanon`, `skRes` are defined in Proofs/C01O.lean.) -/
+theorem dotProduct_size2_ntt {l : Level} (hl : l.WF) {sk : Array Int} (hsk : sk.size = l.n) {c0 c1 : RnsPoly}
+    (h0 : RnsCanon l c0) (h1 : RnsCanon l c1) :
+    ∃ ph, dotProductCtSk l sk ⟨#[c0, c1], true, 1⟩ = .ok ph ∧ RnsCanon l ph ∧
+      ∀ i, i < l.size → ∀ j, j < l.n →
+        (intt (l.tbl i) (ph.getD i #[])).getD j 0 =
+          ((intt (l.tbl i) (c0.getD i #[])).getD j 0 +
+            negMulNat l.n (l.q i).value (intt (l.tbl i) (c1.getD i #[])) (skRes l sk i) j) % (l.q i).value :=
+  HC.dotProduct_size2_ntt hl hsk h0 h1
+
+/-- … and for coefficient-form (BFV) ciphertexts the model returns c0 + c1·s mod (X^N+1, q_i) in coefficient form -/
+theorem dotProduct_size2_coeff {l : Level} (hl : l.WF) {sk : Array Int} (hsk : sk.size = l.n) {c0 c1 : RnsPoly}
+    (h0 : RnsCanon l c0) (h1 : RnsCanon l c1) :
+    ∃ ph, dotProductCtSk l sk ⟨#[c0, c1], false, 1⟩ = .ok ph ∧ RnsCanon l ph ∧
+      ∀ i, i < l.size → ∀ j, j < l.n →
+        (ph.getD i #[]).getD j 0 =
+          ((c0.getD i #[]).getD j 0 + negMulNat l.n (l.q i).value (c1.getD i #[]) (skRes l sk i) j) % (l.q i).value :=
+  HC.dotProduct_size2_coeff hl hsk h0 h1
 
 end HC.C01
